@@ -61,7 +61,7 @@ partial def trieItems (path : Key) : TNode → List (Key × Nat)
     me ++ (List.range 256).flatMap (fun i => trieItems (path ++ [i.toUInt8]) (ks i.toUInt8))
 
 structure St where
-  avl   : Option T := none
+  avl   : Option AvlSt := none
   amap  : Map Int := []
   ht    : Option (HT Key) := none
   hkind : Nat := 0
@@ -82,7 +82,7 @@ def showOut : Out → String
   | .done => "done"
 
 /-- run one API step on the model and on the reference map; print both answers -/
-def avlOp (st : St) (t : T) (op : Op Int) : St × String :=
+def avlOp (st : St) (t : AvlSt) (op : Op Int) : St × String :=
   match avlStep t op with
   | .ok (t', o) =>
     let (m', so) := specStepReject st.amap op
@@ -102,7 +102,7 @@ def stepLine (st : St) : List String → St × String
     match cap.toNat? with
     | some c =>
       if c ≥ 2 ^ 31 then ({ st with avl := none, amap := [] }, "fail")
-      else ({ st with avl := some .nil, amap := [] }, "ok")
+      else ({ st with avl := some (.nil, 0), amap := [] }, "ok")
     | none => (st, "bad-op")
   | ["ains", k, v] =>
     match st.avl, k.toInt?, v.toNat? with
@@ -118,17 +118,18 @@ def stepLine (st : St) : List String → St × String
     | _, _ => (st, "bad-op")
   | ["adump"] =>
     match st.avl with
-    | some t => (st, t.dump)
+    | some t => (st, t.1.dump)
     | none => (st, "bad-op")
   | ["achk"] =>
     match st.avl with
-    | some t =>
-      (st, both ((if T.wellFormed none none t then "ok " else "bad ") ++ toString t.size)
+    | some (t, _) =>
+      let ok := T.wellFormed none none t && T.parentsOk none t
+      (st, both ((if ok then "ok " else "bad ") ++ toString t.size)
                 ("ok " ++ toString st.amap.size))
     | none => (st, "bad-op")
   | ["aitems"] =>
     match st.avl with
-    | some t => (st, both (showItems toString t.toList)
+    | some (t, _) => (st, both (showItems toString t.toList)
                           (showItems toString (specItems (fun a b => decide (a ≤ b)) st.amap)))
     | none => (st, "bad-op")
   -- ---------------- hash table ----------------
